@@ -318,10 +318,20 @@ func (g Gap) Center() float64 {
 	return (g.Left + g.Right) / 2
 }
 
+// maxPageExtent is the largest page width (in points) the gap histogram is built for.
+const maxPageExtent = 1000000.0
+
 // findVerticalGaps finds significant vertical whitespace gaps using density analysis
 // This approach handles documents with spanning headers/titles that cross column boundaries
 func (d *ColumnDetector) findVerticalGaps(fragments []text.TextFragment, pageWidth, pageHeight float64) []Gap {
 	if len(fragments) == 0 {
+		return nil
+	}
+
+	// The page width comes from the file (MediaBox): a negative, NaN, infinite or absurdly
+	// large width must not size the histogram below. Without a usable width there is no gap
+	// analysis and the page is treated as a single column.
+	if !(pageWidth > 0 && pageWidth <= maxPageExtent) {
 		return nil
 	}
 
